@@ -21,7 +21,14 @@ NoView == [aspath |-> <<>>, as4 |-> NoAs4, agg |-> NoAgg, agg4 |-> NoAgg, err |-
            naspath |-> 1, enc |-> 0, aggoct |-> 0, otheratt |-> 0]
 NoIn   == [as2 |-> <<>>, as4 |-> NoAs4, g2 |-> NoAgg, g4 |-> NoAgg]
 
-TraceInit == l = 1 /\ ph = "idle" /\ p0 = <<>> /\ g0 = NoAgg /\ dn = NoView /\ in = NoIn /\ up = NoView
+(* Every trace of the file is a behaviour of its own: the initial state points at any Reset line,
+   and nothing consumes a Reset line except from the initial ("idle") phase.  A counterexample is
+   therefore at most four states long however many traces the file holds.  Acceptance = every line
+   was consumed by some behaviour (register 3 collects the values of l reached by consuming). *)
+StartLines == {i \in 1..TLen : Trace[i].ev = "Reset"}
+ASSUME TLCSet(3, {})
+
+TraceInit == l \in StartLines /\ ph = "idle" /\ p0 = <<>> /\ g0 = NoAgg /\ dn = NoView /\ in = NoIn /\ up = NoView
 
 IsEvent(e) == l <= TLen /\ Trace[l].ev = e /\ l' = l + 1
 
@@ -31,7 +38,7 @@ View(o) == [aspath |-> o.aspath, as4 |-> o.as4, agg |-> o.agg, agg4 |-> o.agg4, 
 
 ShapeKey(p) == [i \in 1..Len(p) |-> <<p[i].t, Len(p[i].as), Cardinality({j \in 1..Len(p[i].as) : Wide(p[i].as[j])})>>]
 
-TReset == /\ IsEvent("Reset")
+TReset == /\ IsEvent("Reset") /\ ph = "idle"
           /\ ph' = (IF Trace[l].kind = "rt" THEN "rt0" ELSE "pair0")
           /\ p0' = <<>> /\ g0' = NoAgg /\ dn' = NoView /\ in' = NoIn /\ up' = NoView
 
@@ -58,8 +65,13 @@ TUp == /\ IsEvent("Up") /\ ph \in {"down", "pair0"}
 TraceNext == TReset \/ TDown \/ TUp
 TraceSpec == TraceInit /\ [][TraceNext]_tvars
 
-TraceConstraint == Hwm(l)
-TraceAccepted == Accepted
+TraceConstraint == IF ph # "idle" THEN TLCSet(3, TLCGet(3) \cup {l}) ELSE TRUE
+TraceAccepted ==
+  LET missing == (2..(TLen + 1)) \ TLCGet(3) IN
+  IF missing = {} /\ TLen > 0
+  THEN PrintT("VPOUT " \o ToJson([nontrivial |-> [n |-> Cardinality(TLCGet(2))]]))
+  ELSE /\ PrintT("VPHWM " \o ToString((CHOOSE m \in missing : \A k \in missing : m <= k) - 1))
+       /\ FALSE
 
 ---------------------------------------------------------------------------
 AfterDown == ph \in {"down", "rtup"}
@@ -107,11 +119,12 @@ C14_NoEmptyOrOverlong_KF     == C14_NoEmptyOrOverlong \/ TolB
 C14_NoLengthening_KF         == C14_NoLengthening \/ TolB
 
 ---------------------------------------------------------------------------
-(* informational: the code follows the mechanism layer exactly; and outside the known findings
-   and the AGGREGATOR/AS_TRANS rule (not part of C14's text) it is the RFC reconstruction *)
+(* informational: the code follows the mechanism layer exactly (the transcribed one, or the
+   repaired one once the findings are fixed); and outside the known findings and the
+   AGGREGATOR/AS_TRANS rule (not part of C14's text) it is the RFC reconstruction *)
 Conf_Down == AfterDown => (dn.aspath = MechDown(p0).aspath /\ dn.as4 = MechDown(p0).as4
                            /\ dn.agg = MechDownAgg(g0).agg /\ dn.agg4 = MechDownAgg(g0).agg4)
-Conf_Up   == AfterUp => /\ up.aspath = MechUp(in.as2, in.as4)
+Conf_Up   == AfterUp => /\ (up.aspath = MechUp(in.as2, in.as4) \/ up.aspath = MechUpFixed(in.as2, in.as4))
                         /\ ~up.as4.p /\ ~up.agg4.p
                         /\ up.agg = MechUpAgg(in.g2, in.g4)
                         /\ up.enc \in {0, 4}
